@@ -20,6 +20,8 @@ UNIVERSES = {
     'U3xd': ((0, 1, 2, 0), 2, ('b', 'a', 'b', 'e'), False, False),
     'U2x': ((0, 1, 4), 2, ('b', 'a', 'e'), False, False),
     'U3dq': ((0, 2, 0), 2, ('b', 'a', 'c'), False, False),
+    # look-alike pairs: tasks 2, 3 equal tasks 0, 1 in id, name and attribute values (two plans from one template)
+    'U4q': ((0, 2, 0, 2), 2, ('b', 'a', 'b', 'a'), False, False),
     # two-phase universes: structure alphabet to closure, then the attach/full alphabet one step from every state
     'U4e': ((1, 2, 0, 0), 1, ('b', 'a', 'b', 'c'), False, False),
     'U4s': ((1, 2, 3, 4), 2, ('b', 'a', 'b', 'a'), False, False),
@@ -40,7 +42,7 @@ def make_universe(name):
     ids, m, names, links_only, ctor = UNIVERSES[name]
     return core.Universe(name, ids, m, names, links_only=links_only, ctor=ctor,
                          alphabet='reach' if name in ('U3x', 'U3xd', 'U2x') else 'attach' if name == 'U3dq' else
-                         'structure' if name in ('U4e', 'U4s', 'U4o') else 'full')
+                         'structure' if name in ('U4e', 'U4s', 'U4o') else 'full', twin=(name == 'U4q'))
 
 
 def _dup_ids_abs(U, a):
@@ -233,12 +235,13 @@ def _expand_chunk(chunk):
     try:
         for enc, hist in chunk:
             U.restore(enc)
+            # self-check of snapshot/restore - before anything is read through the public getters: reading may legitimately fill
+            # caches inside the library (hidden state), which is no fault of the snapshot
+            if U.encode() != enc:
+                raise runtime.HarnessError('restore/encode round trip failed')
             pre_obs = U.observe()
             pre_abs = core.abstract(pre_obs, U.n, U.m)
             pre_ok = not core.state_violations(U, pre_obs)
-            # self-check of snapshot/restore
-            if U.encode() != enc:
-                raise runtime.HarnessError('restore/encode round trip failed')
             for op in ops:
                 if op[0] == 'Task()' and not _pristine(pre_abs, op[1]):
                     continue
@@ -318,9 +321,39 @@ def _held_chunk(chunk):
                     for op3 in by_cont[c]:
                         U.restore(enc)
                         F = O._facade(U, c)
+                        len(F), list(F)  # the facade has been looked at before the other operation runs
                         O.apply(U, op1)
                         acc.count('held_facade_transitions')
                         run_transition(U, enc1, obs1, abs1, op3, acc, hist + (op1,), cache, obs_cache, True, facade=F, restore=False)
+                    # two operations between taking the facade and using it: one that rebuilds the list in place (sort / reorder
+                    # through a fresh access), then an adoption into it; then an ordering mutator through the old facade
+                    if op1[0] in ('sort', 'reorder') and op1[1] == c:
+                        seconds = [o for o in ops if (o[0] == 'append' and o[1] == c) or (o[0] == 'parent' and c[0] == 'T' and o[2] == c[1])]
+                        thirds = [o for o in by_cont[c] if o[0] in ('move_before', 'move_after', 'insert', 'sort', 'reorder', 'remove')]
+                        for op2 in seconds:
+                            U.restore(enc1)
+                            try:
+                                O.apply(U, op2)
+                            except Exception:  # noqa
+                                continue
+                            enc2 = U.encode()
+                            if enc2 == enc1:
+                                continue
+                            obs2 = obs_cache.get(enc2)
+                            if obs2 is None:
+                                obs2 = obs_cache[enc2] = U.observe()
+                            if core.state_violations(U, obs2):
+                                continue
+                            abs2 = core.abstract(obs2, U.n, U.m)
+                            for op3 in thirds:
+                                U.restore(enc)
+                                F = O._facade(U, c)
+                                len(F), list(F)
+                                O.apply(U, op1)
+                                O.apply(U, op2)
+                                acc.count('held_facade_transitions')
+                                acc.count('held_facade_transitions_depth2')
+                                run_transition(U, enc2, obs2, abs2, op3, acc, hist + (op1, op2), cache, obs_cache, True, facade=F, restore=False)
             # link-list facades
             for x in range(U.n):
                 for side in ('pred', 'succ'):
